@@ -28,7 +28,11 @@ def make_dataset(rng, fam):
                      'shoc_simple': ('zc', None, 'zcsed')}.get(d.family, (None, None, 'ksed_centre'))
     tname = gen.TIME_NAMES.get(d.family, 'time')
     two = rng.random() < 0.4 and d.family != 'shoc_simple'
-    ds, sp1 = gen.add_depth(rng, ds, dim='k', name=nm1, second=two, second_name=nm2)
+    if rng.random() < 0.25:
+        # depths stored as whole numbers in an unsigned type (positive down, as such a type requires)
+        ds, sp1 = gen.add_depth(rng, ds, dim='k', name=nm1, second=False, int_dtype=rng.choice(['u2', 'u1']), up=False, positive='attr')
+    else:
+        ds, sp1 = gen.add_depth(rng, ds, dim='k', name=nm1, second=two, second_name=nm2)
     specs = [sp1]
     if rng.random() < 0.5:
         # a second depth dimension with its own coordinate (e.g. sediment layers)
@@ -80,6 +84,14 @@ def make_dataset(rng, fam):
                     name = f'd_{sp["dim"]}_{kind}_{v}'
                     ds[name] = da.transpose(*dims)
                     variables.append((name, sp, kind, mode))
+    # a coordinate that runs along the depth dimension and the surface dimensions (cell thickness, a sigma-to-depth table):
+    # it is a variable with a depth dimension like any other
+    face_vars = [(nm, sp_, kd, md) for nm, sp_, kd, md in variables if kd == 'face']
+    if face_vars and rng.random() < 0.5:
+        nm, sp_, kd, md = face_vars[0]
+        cname = f'thickness_{sp_["dim"]}'
+        ds = ds.assign_coords({cname: (ds[nm].dims, ds[nm].values + 100000.0)})
+        variables.append((cname, sp_, kd, md))
     # variables that lie along a depth dimension and nothing horizontal (layer thicknesses, a profile per record): they have
     # no horizontal location to reduce at
     for sp in specs:
@@ -165,15 +177,18 @@ def run(ctx):
         # everything without a depth dimension is left as it was
         for vn in before.variables:
             if not (set(before[vn].dims) & depth_dims):
-                if vn not in out.variables or not before[vn].identical(out[vn]):
+                # (compared as variables: which coordinates xarray attaches to a variable follows from the dimensions the
+                # coordinates have, and those of the depth dimension lose it)
+                if vn not in out.variables or not before[vn].variable.identical(out[vn].variable):
                     bad = bad or f'variable {vn} has no depth dimension but was changed or dropped'
         # nothing that lay along a depth dimension survives in another shape, no variable gains coordinates it did not have
+        floored_names = {nm_ for nm_, _, _, _ in variables}
         for cn in out.coords:
-            if cn in before.coords and set(before[cn].dims) & depth_dims:
+            if cn in before.coords and set(before[cn].dims) & depth_dims and str(cn) not in floored_names:
                 bad = bad or f'coordinate {cn} lay along the depth dimension and is still present, now on {out[cn].dims}'
         for vn in out.data_vars:
             if vn in before.data_vars:
-                gained = set(map(str, out[vn].coords)) - set(map(str, before[vn].coords))
+                gained = set(map(str, out[vn].coords)) - set(map(str, before[vn].coords)) - floored_names
                 if gained:
                     bad = bad or f'variable {vn} gained the coordinates {sorted(gained)}'
         if not bad and not ds.identical(before):
@@ -190,19 +205,22 @@ def run(ctx):
             ctx.report('property', bad, case0)
             continue
         # ---- which variables are reduced, which are left, which go with the dimension: model FloorPlan
+        # (every variable of the dataset in dataset order - coordinates along a depth dimension are reduced like data variables;
+        # the bounds of the depth coordinates are named: they describe the axis and go with it)
         dim_ids = {str(x): i for i, x in enumerate(before.dims)}
-        var_ids = {str(x): 100 + i for i, x in enumerate(before.data_vars)}
+        var_ids = {str(x): 100 + i for i, x in enumerate(before.variables)}
         ns_dims = [] if (not via_ems and n % 4 == 1) else [dim_ids[str(x)] for x in before[tname].dims]
+        skip_ids = [var_ids[str(before[nm_].attrs['bounds'])] for nm_ in names if before[nm_].attrs.get('bounds') in before.variables]
         vlit = '[' + '; '.join(f'{{| v_name := {var_ids[str(x)]}; v_dims := {to_coq([dim_ids[str(y)] for y in before[x].dims])} |}}'
-                               for x in before.data_vars) + ']'
-        plan_exprs.append(f'(show_plan (plan {to_coq(sorted(dim_ids[x] for x in depth_dims))} {to_coq(ns_dims)} {vlit}))')
+                               for x in before.variables) + ']'
+        plan_exprs.append(f'(show_plan (plan {to_coq(sorted(dim_ids[x] for x in depth_dims))} {to_coq(ns_dims)} {to_coq(skip_ids)} {vlit}))')
         impl_plan = []
-        for x in before.data_vars:
+        for x in before.variables:
             if str(x) not in out.variables:
                 impl_plan.append((var_ids[str(x)], None))
             else:
                 impl_plan.append((var_ids[str(x)], Some(sorted(dim_ids[str(y)] for y in out[x].dims))))
-        plan_plans.append((dict(case0, data_variables={str(x): list(map(str, before[x].dims)) for x in before.data_vars}), impl_plan))
+        plan_plans.append((dict(case0, variables={str(x): list(map(str, before[x].dims)) for x in before.variables}), impl_plan))
         ctx.count(f'plan:data variables={min(len(var_ids), 6)}{"+" if len(var_ids) >= 6 else ""}')
         for name, sp, kind, mode in variables:
             vin = before[name]
@@ -256,7 +274,7 @@ def run(ctx):
         want = [(int(nm), None if dims is None else Some(sorted(dims.v))) for (nm, _act), dims in mp]
         if want != impl_plan:
             k = next(i for i, (a, b) in enumerate(zip(want, impl_plan)) if a != b)
-            ctx.report('correspondence', f'data variable {want[k][0]}: the result holds it with dimensions {impl_plan[k][1]}, model '
+            ctx.report('correspondence', f'variable {want[k][0]} (numbered from 100 in dataset order): the result holds it with dimensions {impl_plan[k][1]}, model '
                        f'FloorPlan.plan says {want[k][1]} (None: not in the result)', pcase, found_input=False)
     ctx.leg('coq_eval_columns', sum(len(p[1]) for p in plans))
     for (case, flat_out), mres in zip(plans, model):
